@@ -279,7 +279,7 @@ const basePrelude = `
 (declare-sort Opaque 0)
 (declare-datatypes ((Opt 1)) ((par (T) ((None) (Some (val T))))))
 (declare-datatypes ((Pair 2)) ((par (A B) ((mkpair (fst A) (snd B))))))
-(declare-datatypes ((GSeq 1)) ((par (T) ((mkseq (seq.arr (Array Int T)) (seq.len Int))))))
+(declare-datatypes ((GSeq 1)) ((par (T) ((mkseq (gseq.arr (Array Int T)) (gseq.len Int))))))
 (declare-fun blen (Bytes) Int)
 (declare-const bempty Bytes)
 (declare-fun bnil (Bytes) Bool)
@@ -371,6 +371,10 @@ func (e *Enc) Sort(t types.Type) string {
 	}
 	s := e.sort0(t)
 	e.sortCache[t] = s
+	if strings.HasPrefix(s, "(GSeq ") || strings.HasPrefix(s, "(Opt ") || strings.HasPrefix(s, "(Pair ") {
+		// z3 instantiates parametric datatypes only for sorts that are mentioned in a declaration
+		e.DeclConst("inst."+sanitize(s), s)
+	}
 	return s
 }
 
@@ -598,7 +602,13 @@ func (e *Enc) zeroOfSort(s string, t types.Type) string {
 			et = u.Elem()
 			n = u.Len()
 		}
-		inner := s[5 : len(s)-1]
+		inner := s[6 : len(s)-1]
+		if n == 0 {
+			// empty/nil slice: the backing array is irrelevant; one canonical uninterpreted constant per element sort
+			// (cvc5 rejects constant arrays whose default is not a value)
+			z := e.DeclConst("zarr."+sanitize(inner), fmt.Sprintf("(Array Int %s)", inner))
+			return fmt.Sprintf("(mkseq %s 0)", z)
+		}
 		return fmt.Sprintf("(mkseq ((as const (Array Int %s)) %s) %d)", inner, e.Zero(et), n)
 	case strings.HasPrefix(s, "(Array "):
 		m := t.Underlying().(*types.Map)
@@ -652,11 +662,11 @@ func (e *Enc) TypeFacts(term string, t types.Type, depth int) []string {
 		if isByte(u.Elem()) {
 			out = append(out, eq(app("blen", term), intLit(u.Len())))
 		} else {
-			out = append(out, eq(app("seq.len", term), intLit(u.Len())))
+			out = append(out, eq(app("gseq.len", term), intLit(u.Len())))
 		}
 	case *types.Slice:
 		if !isByte(u.Elem()) {
-			out = append(out, app(">=", app("seq.len", term), "0"), app("<", app("seq.len", term), two63))
+			out = append(out, app(">=", app("gseq.len", term), "0"), app("<", app("gseq.len", term), two63))
 		} else {
 			out = append(out, bytesFacts(term)...)
 		}
